@@ -169,6 +169,14 @@ import (
 // The same harness on several goroutines, each with its own copy of the replay vector and its own
 // objects: under the race detector any write to state shared through the library shows as a data race.
 func TestVerifReplayRace(t *testing.T) {
+	before := vr.DumpGlobals()
+	defer func() {
+		// besides a data race, a package-level variable that the operations have changed is direct evidence
+		// of state kept outside the objects passed in (this also sees synchronised stores: sync.Map, atomics)
+		if vr.DumpGlobals() != before {
+			fmt.Println("VERIF-GLOBAL-CHANGED")
+		}
+	}()
 	var wg sync.WaitGroup
 	for i := 0; i < 4; i++ {
 		wg.Add(1)
@@ -202,10 +210,27 @@ def pkg_name(pkg):
     raise RuntimeError("no package name for " + pkg)
 
 
-def write_replay(outdir, name, job, model):
+GLOBAL_TMPL = '''package %(pkgname)s
+
+import vr "github.com/free5gc/ike/internal/verifrt"
+
+func init() { vr.RegisterGlobal("%(name)s", &%(name)s) }
+'''
+
+
+def write_replay(outdir, name, job, model, detail=""):
     """Writes vector + test + overlay for one model; returns the replay directory path."""
     d = os.path.join(outdir, name)
     os.makedirs(d, exist_ok=True)
+    # a write-monitor finding that names a package-level variable: the concurrent replay also watches it
+    m = re.search(r"global (github\.com/free5gc/ike(?:/[\w/]+)?)\.(\w+)", detail or "")
+    if m:
+        gp, gn = m.group(1), m.group(2)
+        try:
+            open(os.path.join(d, "zz_verif_global.go"), "w").write(GLOBAL_TMPL % {"pkgname": pkg_name(gp), "name": gn})
+            json.dump({"pkg": gp}, open(os.path.join(d, "global.json"), "w"))
+        except Exception:
+            pass
     vec = {"params": job["params"], "sparams": job.get("sparams") or [], "draws": model or []}
     json.dump(vec, open(os.path.join(d, "vector.json"), "w"), indent=1)
     pkg = job["pkg"]
@@ -231,6 +256,10 @@ def run_replay(d, timeout=120, vector=None, race=False):
     rpath = os.path.join(d, "zz_verif_race_test.go")
     if os.path.exists(rpath):
         extra[os.path.join(REPO, pkg_dir(meta["pkg"]), "zz_verif_race_test.go")] = rpath
+    gpath = os.path.join(d, "zz_verif_global.go")
+    if race and os.path.exists(gpath):
+        gp = json.load(open(os.path.join(d, "global.json")))["pkg"]
+        extra[os.path.join(REPO, pkg_dir(gp), "zz_verif_global.go")] = gpath
     ov = overlay_json(extra)
     ovp = os.path.join(d, "overlay.json")
     json.dump(ov, open(ovp, "w"), indent=1)
@@ -260,7 +289,9 @@ def confirm(label, site, out, timed_out):
     if label.startswith("c18.shared-write"):
         if "DATA RACE" in out:
             return True, "data race reported by the race detector in the concurrent native replay"
-        return False, "no data race in the concurrent native replay"
+        if "VERIF-GLOBAL-CHANGED" in out:
+            return True, "the package-level variable was changed by the operation in the native replay"
+        return False, "no data race and no change of the package-level variable in the concurrent native replay"
     if label in ("unwind", "c04.variant"):
         if timed_out:
             return True, "native run does not terminate within the time limit"
